@@ -742,7 +742,11 @@ def text_cases(rng, n, root):
 
 FTXTS = [["int from_file;", "", "  // vectorize_over not an annotation", "}"],
          ["#define FROM_OTHER_FOLDER 1", "{ /* same name, other content */"],
-         []]
+         [],
+         # an included file that itself carries an include line naming ONE context: whatever the rewriter makes of that line (the
+         # pinned tree passes it through as text), the file it names must never be spliced for a context the line does not name
+         ["int outer_part;", "//include_file xv_inner.h for_context cuda", "int after_inner;"]]
+NESTED = {3: ("cuda", ["int INNER_ONLY_FOR_CUDA;", "#define XV_INNER 1"])}
 
 
 def run_text_case(lines, t, root, tok, variant=0):
@@ -755,19 +759,24 @@ def run_text_case(lines, t, root, tok, variant=0):
         got = sp.split("\n")
     except Exception as ex:      # noqa
         got = [f"<<raised {type(ex).__name__}: {ex}>>"]
-    inp = []
+    inp, forb = [], []
     for a, txt in lines:
         inp.append([a, tok.setdefault(txt, len(tok) + 1)])
         if a == 1 and "//include_file" in txt and t in txt.split("for_context")[-1].split():
-            inp += [[0, tok.setdefault(x, len(tok) + 1)] for x in ftxt] + [[1, 0]]
+            inp += [[1 if "//include_file" in x else 0, tok.setdefault(x, len(tok) + 1)] for x in ftxt] + [[1, 0]]
+            nest = NESTED.get(variant % len(FTXTS))
+            if nest and t != nest[0]:
+                forb = [tok.setdefault(x, len(tok) + 1) for x in nest[1]]
     return dict(inp=inp, out=[tok.setdefault(x, len(tok) + 1) for x in got], t=t, lines=[list(x) for x in lines], got=got,
-                variant=variant)
+                variant=variant, forb=forb)
 
 
 def run_text_cases(cases, root, variants=None):
     for i, ftxt in enumerate(FTXTS):
         os.makedirs(os.path.join(root, f"txt{i}"), exist_ok=True)
         open(os.path.join(root, f"txt{i}", "xv_text.h"), "w").write("".join(x + "\n" for x in ftxt))
+        if i in NESTED:
+            open(os.path.join(root, f"txt{i}", "xv_inner.h"), "w").write("".join(x + "\n" for x in NESTED[i][1]))
     tok, out = {}, []
     for i, lines in enumerate(cases):
         for t in TARGETS:
@@ -901,7 +910,7 @@ def _check(run):
         "the bound of a block is the launch size n (n_threads) or a smaller variable of the kernel (n/2); a block whose bound exceeds "
         "the launch size is outside the vocabulary (the GPU expansions cannot cover it)",
         "a block shorter than the launch on opencl: once per work-item (indices 0..n-1), C16 promises a bound guard on CUDA only",
-        "nested include_file inside included files and only_for_context on vectorize_over/end_vectorize lines are outside the vocabulary",
+        "an include line INSIDE an included file: only 'the file it names is not spliced for a context the line does not name' is claimed (what else happens to the line is not judged); only_for_context on vectorize_over/end_vectorize lines is outside the vocabulary",
         "text is compared as a sequence of newline-terminated lines (str.splitlines normalisation of CR/FF is not judged)",
     ]
     root = run.tmp
@@ -1055,7 +1064,7 @@ def _check(run):
 
     # ---- TLC validates context-sample executions and the text cases
     t1 = time.time()
-    rver, tver, tot = validate(obs_ctx, [dict(inp=x["inp"], out=x["out"]) for x in texts])
+    rver, tver, tot = validate(obs_ctx, [dict(inp=x["inp"], out=x["out"], forb=x.get("forb", [])) for x in texts])
     run.notes["t_tlc_validation_contexts_texts"] = round(time.time() - t1, 1)
     run.cov["states"] += tot["distinct"]
     run.cov["transitions"] += tot["generated"]
@@ -1073,7 +1082,7 @@ def _check(run):
         clause_count["text:" + (v or "ok")] += 1
         if v:
             shape = "with-annotations" if any(a for a, _ in x["inp"]) else "plain-only"
-            violations.append((f"{v}:{shape}", f"target {x['t']}: unannotated text changed; source lines={[l[1] for l in x['lines']]!r} "
+            violations.append((f"{v}:{shape}", f"target {x['t']}: {v}; source lines={[l[1] for l in x['lines']]!r} "
                                f"produced={x['got']!r}", dict(kind="text", case=x), len(x["lines"]), 1))
     run.notes["tlc_verdicts"] = dict(clause_count)
 
